@@ -1601,7 +1601,137 @@ def mon_C14(rng, budget, tier):
                 mon.fail("threads: result differs from the sequential result", case,
                          "thread(s) %s: sequential %s / interleaved %s" % (bad, str([seq[k] for k in bad])[:300], str([out[k] for k in bad])[:300]))
                 break
+    # (e) first calls of a process, interleaved: in a pristine interpreter thread A makes the process's FIRST call; at every
+    # source line of A inside the library the process is forked and, in the copy, a second thread B makes ITS first call
+    # through the same model object while A stands still (the schedule "A up to line k, then B to completion").  State
+    # built lazily on first use and published before it is complete (module- or class-level tables, caches) is visible to
+    # B only in that window, once per process - which a long-lived stress process never sees.
+    if not mon.full:
+        njobs = 20 if tier == "quick" else 120
+        jobs = []
+        for j in range(njobs):
+            kind = KINDS[j % 5]
+            variant = (j // 5) % 4      # 0: any call twice; 1: a prediction on >= 3 teams twice; 2: two unrelated calls; 3: two different predictions of one game
+            st = gen.gen_state(rng)
+            a = _random_call(rng, kind, st)
+            if variant in (1, 3):
+                for _ in range(20):
+                    if len(a["teams"][1]) >= 3:
+                        break
+                    a = _random_call(rng, kind, st)
+                a["op"] = ("pwin", "pdraw", "prank")[(j // 20 + j // 5 + j) % 3]
+                for k_ in ("ranks", "tau", "lim"):
+                    a.pop(k_, None)
+            b = _random_call(rng, kind, st) if variant == 2 else copy.deepcopy(a)
+            if variant == 3:
+                b["op"] = {"pwin": "prank", "pdraw": "pwin", "prank": "pdraw"}[a["op"]]
+            jobs.append((kind, st, a, b))
+        seqs = [(_do_call(make_model(kind, st), kind, a), _do_call(make_model(kind, st), kind, b)) for kind, st, a, b in jobs]
+        got = first_call_eval(jobs)
+        for (kind, st, a, b), (sa, sb), g in zip(jobs, seqs, got):
+            case = {"clause": "first-call interleaving", "kind": kind, "st": st, "callA": a, "callB": b}
+            mon.case(case)
+            if g is None:
+                continue
+            mon.count("first-call injection points", g["points"])
+            mon.count("first-call injection points where B blocked", g["blocked"])
+            if g["A"] != sa:
+                mon.fail("threads: result differs from the sequential result", case,
+                         "thread A (first call of a fresh process, B interleaved): sequential %s / interleaved %s" % (str(sa)[:300], str(g["A"])[:300]))
+            bad = [(k, w, r) for k, w, r in g["B"] if r != sb]
+            if bad:
+                k, w, r = bad[0]
+                case = dict(case, inject_after_line_event=k, where=w)
+                mon.fail("threads: result differs from the sequential result", case,
+                         "thread B making its first call while A (first call of a fresh process) stands at %s: sequential %s / interleaved %s"
+                         % (w, str(sb)[:300], str(r)[:300]))
+            if mon.full:
+                break
     return mon
+
+
+_FIRSTCALL_SCRIPT = r"""
+import sys, os, pickle, threading
+sys.path.insert(0, %(harness)r)
+from osv import impl, monitors
+kind, st, a, b = pickle.load(open(%(job)r, "rb"))
+m = impl.make_model(kind, st)
+def run_b(res):
+    try:
+        res["r"] = monitors._do_call(m, kind, b)
+    except Exception as ex:
+        res["r"] = "EXC %%s: %%s" %% (type(ex).__name__, ex)
+def b_in_fork():
+    # the process is forked while A stands between two lines; in the copy a second thread runs B's whole call (A never
+    # resumes there), so B sees exactly the shared state A has built so far and A's own run is left undisturbed
+    r, w = os.pipe()
+    pid = os.fork()
+    if pid == 0:
+        try:
+            os.close(r)
+            res = {}
+            t = threading.Thread(target=run_b, args=(res,), daemon=True)
+            t.start(); t.join(20)
+            os.write(w, pickle.dumps(res.get("r", "__BLOCKED__")))
+        finally:
+            os._exit(0)
+    os.close(w)
+    data = b""
+    while True:
+        chunk = os.read(r, 1 << 16)
+        if not chunk:
+            break
+        data += chunk
+    os.close(r); os.waitpid(pid, 0)
+    return pickle.loads(data) if data else "__BLOCKED__"
+bres, npoints, nblocked, last = [], [0], [0], [None]
+LIB = os.sep + "openskill" + os.sep
+def local(frame, event, arg):
+    if event == "line" and npoints[0] < %(cap)d:
+        npoints[0] += 1
+        r = b_in_fork()
+        if r == "__BLOCKED__":
+            nblocked[0] += 1      # B waits for something A holds: not a schedule in which B completes here
+        elif r != last[0]:
+            last[0] = r
+            bres.append((npoints[0], "%%s:%%d" %% (os.path.basename(frame.f_code.co_filename), frame.f_lineno), r))
+    return local
+def tracer(frame, event, arg):
+    return local if LIB in frame.f_code.co_filename else None
+sys.settrace(tracer)
+try:
+    try:
+        ra = monitors._do_call(m, kind, a)
+    except Exception as ex:
+        ra = "EXC %%s: %%s" %% (type(ex).__name__, ex)
+finally:
+    sys.settrace(None)
+pickle.dump({"A": ra, "B": bres, "points": npoints[0], "blocked": nblocked[0]}, open(%(out)r, "wb"))
+"""
+
+
+def first_call_eval(jobs):
+    """one pristine interpreter per job: A's first call traced line by line, a whole call of B between every two lines"""
+    import pickle
+    import shutil
+    import tempfile
+    from concurrent.futures import ThreadPoolExecutor
+    d = tempfile.mkdtemp(dir=os.environ.get("OSV_WORK"))
+
+    def one(ij):
+        i, job = ij
+        jp, op_ = os.path.join(d, "job%d.pkl" % i), os.path.join(d, "out%d.pkl" % i)
+        pickle.dump(job, open(jp, "wb"))
+        code = _FIRSTCALL_SCRIPT % {"harness": os.path.dirname(os.path.dirname(__file__)), "job": jp, "out": op_, "cap": 4000}
+        p = subprocess.run([sys.executable, "-c", code], capture_output=True, text=True, timeout=600)
+        if p.returncode != 0 or not os.path.exists(op_):
+            raise RuntimeError("first-call interpreter failed: " + p.stderr[-500:])
+        return pickle.load(open(op_, "rb"))
+    try:
+        with ThreadPoolExecutor(max_workers=4) as ex:
+            return list(ex.map(one, enumerate(jobs)))
+    finally:
+        shutil.rmtree(d, ignore_errors=True)
 
 
 _FRESH_SCRIPT = r"""
